@@ -231,3 +231,28 @@ impl VRepoRw {
         requires w.new_saved@,
     { unimplemented!() }
 }
+
+// ---- errors of the writer thread surface at finalize (RawPacker::finalize) ----
+pub uninterp spec fn WRITER_JOINED() -> bool;   // a fact only Actor::finalize can produce
+pub struct ActorW { pub _opaque: u64 }
+impl ActorW {
+    // waits for the writer thread and returns the first error of any pack write handed to it
+    #[verifier::external_body]
+    pub fn finalize(self) -> (r: RusticResult<()>) ensures r is Ok ==> WRITER_JOINED(), { unimplemented!() }
+}
+pub struct VBasicPacker { pub _opaque: u64 }
+impl VBasicPacker {
+    #[verifier::external_body]
+    pub fn is_empty(&self) -> bool { unimplemented!() }
+    #[verifier::external_body]
+    pub fn take_stats(&mut self) -> PackerStatsR { unimplemented!() }
+}
+pub struct RawPackerW { pub basic: VBasicPacker, pub file_writer: Option<ActorW> }
+impl RawPackerW {
+    // RawPacker::save (unit of C08): seals the open pack and hands it to the writer
+    #[verifier::external_body]
+    pub fn save(&mut self) -> (r: RusticResult<()>)
+        requires old(self).file_writer is Some,
+        ensures final(self).file_writer is Some,
+    { unimplemented!() }
+}
